@@ -6,6 +6,8 @@
 From RichModel Require Import Prelude Cells Segments Ratio Frames Layout SpecLayout.
 From RichModel Require Table Wrap.
 From RichProofs Require Import LayoutP LayoutP2 LayoutP8 LayoutP3 LayoutP4 LayoutP5 LayoutP6 LayoutP7.
+(* T2 tie: Measurement.normalize/with_maximum/clamp, Padding.unpack, Table padding arithmetic regenerated from /repo and proved equal to the hand model *)
+From RichProofs.bridge Require BridgeMeasure.
 
 (* (1) 0 <= minimum <= maximum <= available width: for EVERY renderable tree (objects without a measure
    method and __rich__ casts included), every available width >= 0, unconditionally ... *)
